@@ -80,6 +80,13 @@ def classify(V, M):
             out.update(kind='NUMBER', bits=V[2][1][1], signed=V[2][2][1], res=V[2][3][1]); return out
         if fn == 'encode_float' and len(V[2]) == 1 and V[2][0] == val:
             out.update(kind='FLOAT'); return out
+        # value-only producers (no raw_value preference): recognised so that the mismatch is reported, not refused
+        if fn == 'encode_date' and V[2] and V[2][0] == val:
+            out.update(kind='DATE-VALUE-ONLY'); return out
+        if fn == 'encode_time' and V[2] and V[2][0] == val:
+            out.update(kind='TIME-VALUE-ONLY'); return out
+        if fn.startswith('lookup_encode_') and V[2] == (val,):
+            out.update(kind='LOOKUP-VALUE-ONLY', enum=fn[len('lookup_encode_'):]); return out
     if V[0] == 'ite' and V[1] == ('cmp', 'is not', raw, NONE):
         a, b = V[2], V[3]
         if a == raw and b[0] == 'call' and b[1][0] == 'name' and b[1][1].startswith('lookup_encode_') and b[2] == (val,):
@@ -337,6 +344,9 @@ def _helper_handles_none(program, name):
     return res
 
 UNCHECKED = {
+    'DATE-VALUE-ONLY': 'encode_date result reaches the mask without a width check',
+    'TIME-VALUE-ONLY': 'encode_time result reaches the mask without a width check',
+    'LOOKUP-VALUE-ONLY': 'lookup_encode result reaches the mask without a width check',
     'VALUE': 'field.value (RESERVED) reaches the mask without a width check',
     'LOOKUP': 'field.raw_value / lookup_encode result reaches the mask without a width check',
     'DATE': 'field.raw_value / encode_date result reaches the mask without a width check',
